@@ -1,3 +1,3 @@
 SPECIFICATION Spec
-INVARIANTS PrecedenceInv Emit
+INVARIANTS PrecedenceInv UnknownInv Emit
 CHECK_DEADLOCK FALSE
